@@ -128,6 +128,12 @@ def run(ck):
     ck.rng.shuffle(ops); ck.rng.shuffle(foreign)
     nq = (6000, 12000) if ck.thorough else (900, 900)
     ops, foreign = ops[:nq[0]], foreign[:nq[1]]
+    for v in ops:
+        # Dict_Gen names each key of a behaviour once and refers to it by position: spell the references out for the replayer
+        ks = v.pop("keys")
+        for st in v["steps"]:
+            st["k"] = ks[st["k"] - 1] if st["k"] else ""
+            st["items"] = [[ks[i - 1], val] for i, val in st["items"]]
     vecs = ops + foreign
     for i, v in enumerate(vecs):
         v["vec"] = i
